@@ -139,15 +139,26 @@ theorem touch_getLease (s : State) (c k : Cid) : getLease (touch s c).table k = 
 /-! ### the pinned lists (plain comments on purpose: a failing `rfl` is reported at the first line of the declaration) -/
 
 -- every listed function is translated …
-theorem srv_translated_reviewed : dhcpSrvTranslated = ["getClientID", "Handler_takenByOther", "Handler_inUse", "Handler_available",
-    "Handler_allocIPOffer", "Handler_findOrCreate", "Handler_delete", "Handler_freeLeases", "Handler_MinuteTicker",
-    "Handler_handleDiscover", "Handler_handleRequest", "Handler_handleDecline", "Handler_handleRelease"] := rfl
+theorem srv_translated_reviewed : dhcpSrvTranslated = [
+  "getClientID",
+  "Handler_takenByOther",
+  "Handler_inUse",
+  "Handler_available",
+  "Handler_allocIPOffer",
+  "Handler_findOrCreate",
+  "Handler_delete",
+  "Handler_freeLeases",
+  "Handler_MinuteTicker",
+  "Handler_handleDiscover",
+  "Handler_handleRequest",
+  "Handler_handleDecline",
+  "Handler_handleRelease",
+  "Handler_ProcessPacket"] := rfl
 
--- … except `ProcessPacket`, refused at its first construct without a form (the `packet.Frame` parameter: frame parsing,
--- `IsValid`, `ParseOptions` and the transmission are C02 / C08 / C12's business; its dispatch on the message type is
--- `Model.step` on the decoded op, covered by the step correspondence only)
+-- … including, since builder U, `ProcessPacket` (the `packet.Frame` parameter is read through the record `FrameV` of
+-- Model/DhcpDispatchGo.lean; its tie to `Model.Dhcp4Frame.processRaw` is Props/C12DispatchTie): nothing is refused
 theorem srv_untranslated_reviewed : dhcpSrvUntranslated = [
-  "Handler_ProcessPacket: line +0: parameter type github.com/irai/packet.Frame"] := rfl
+  ] := rfl
 
 -- the statements without a model counterpart (logging, locks, side traffic, the lease-file save, session effects that
 -- are environment ops of the model - each with the modelled statement it stands before: the model reads the session
@@ -201,11 +212,25 @@ theorem srv_ignored_reviewed : dhcpSrvIgnored = [
   "Handler_handleDecline: log: Logger.Msg(\"decline for invalid lease - gnore\").ByteArray(\"clientid\", clientID).IP(\"ip\", r…",
   "Handler_handleDecline: log: Logger.Msg(\"decline\").ByteArray(\"clientid\", clientID).IP(\"serverIP\", serverIP).IP(\"ip\", le…",
   "Handler_handleRelease: log: Logger.Msg(\"release - discard invalid packet\").ByteArray(\"clientid\", clientID).IP(\"serverI…",
-  "Handler_handleRelease: log: Logger.Msg(\"release\").ByteArray(\"clientid\", clientID).IP(\"ip\", lease.Addr.IP).MAC(\"mac\", l…"] := rfl
+  "Handler_handleRelease: log: Logger.Msg(\"release\").ByteArray(\"clientid\", clientID).IP(\"ip\", lease.Addr.IP).MAC(\"mac\", l…",
+  "Handler_ProcessPacket: log: if Logger.IsInfo() { Logger.Msg(\"dhcp client packet\").Struct(dhcpFrame).Write() }",
+  "Handler_ProcessPacket: log: if Logger.IsDebug() { Logger.Msg(\"process packet\").Label(\"src\").Struct(frame.SrcAddr).Labe…",
+  "Handler_ProcessPacket: log: fmt.Println(\"dhcp4 : skiping dhcp - missing message type\")",
+  "Handler_ProcessPacket: log: fmt.Println(\"dhcp4 : skiping dhcp packet invalid type \", reqType)",
+  "Handler_ProcessPacket: lock: h.Lock()",
+  "Handler_ProcessPacket: lock: h.Unlock()",
+  "Handler_ProcessPacket: unmodelled: if frame.SrcAddr.IP == packet.IPv4zero || dhcpFrame.Broadcast() { dstAddr = packet.Addr{MA…",
+  "Handler_ProcessPacket: log: if Logger.IsDebug() { Logger.Msg(\"send reply to\").Struct(dstAddr).Struct(response).Write()…",
+  "Handler_ProcessPacket: unmodelled: srcAddr := packet.Addr{MAC: h.session.NICInfo.HostAddr4.MAC, IP: h.session.NICInfo.HostAdd…",
+  "Handler_ProcessPacket: log: Logger.Msg(\"send packet failed\").Error(err).Write()",
+  "Handler_ProcessPacket: log: fmt.Println(\"dhcp4: error got dhcp offer\")",
+  "Handler_ProcessPacket: log: Logger.Msg(\"message not supported\").Uint8(\"type\", uint8(reqType)).Write()"] := rfl
 
 theorem srv_callees_accounted : dhcpSrvCallees = [
   "bytes.Equal",
   "errors.New",
+  "frame.Payload",
+  "handler.processClientPacket",
   "ip.AsSlice",
   "ip.Is4",
   "ip.IsUnspecified",
@@ -214,8 +239,11 @@ theorem srv_callees_accounted : dhcpSrvCallees = [
   "ip.Next",
   "msg.CHAddr",
   "msg.CIAddr",
+  "msg.IsValid",
+  "msg.ParseOptions",
   "msg.XId",
   "msgopts[packet.DHCP4OptionClientIdentifier]",
+  "msgopts[packet.DHCP4OptionDHCPMessageType]",
   "msgopts[packet.DHCP4OptionRequestedIPAddress]",
   "msgopts[packet.DHCP4OptionServerIdentifier]",
   "nakPacket",
@@ -226,6 +254,7 @@ theorem srv_callees_accounted : dhcpSrvCallees = [
   "packet.OptionsLeaseTime",
   "prefix.Addr",
   "prefix.Contains",
+  "sendDHCP4Packet",
   "session.FindIP",
   "session.IsCaptured",
   "sub.CopyOptions",
@@ -240,7 +269,8 @@ theorem srv_assumptions_accounted : dhcpSrvAssumptions = [
   "Session.FindIP of a non-IPv4 address finds nothing; only MACEntry.MAC is read through the returned *Host",
   "time.Time is a number of seconds; Before is <, Add is + (no overflow)",
   "EncodeDHCP4 / nakPacket / CopyOptions / OptionsLeaseTime are dictionary entries (encodeReply, nakReplyV, OptsV): their bodies are tied by C08/C12's encoder ties and the step correspondence, not here",
-  "a for-condition loop takes fuel; the tie theorems show which fuel suffices"] := rfl
+  "a for-condition loop takes fuel; the tie theorems show which fuel suffices",
+  "ProcessPacket reads the frame through FrameV: IsValid / ParseOptions / the getters of the payload view are regenerated and tied elsewhere (F10, F14, F5) and enter as the fields valid / mtOpt / m; processClientPacket (client.go) and the connection's WriteTo are environment values (clientRet, sendErr); a reply value is nil iff the in-place encoder found no room (replyPresent = Dhcp4Frame.fits of cap(frame.Payload())); the destination address of the reply (broadcast flag / zero source) is an unmodelled local (tied by ComposeDhcpFrame and the dhcp.raw frames)"] := rfl
 
 /-! ### the regenerated code runs (non-vacuity) -/
 
